@@ -85,6 +85,10 @@ func domLiveness(env *Env) error {
 	for i := 0; i < env.Int("slashruns", 8); i++ {
 		undelegationSlashRun(env, seed*70+uint64(i))
 	}
+	// ---- generated: the signers of an AVS task lose all their power before the statistics epoch
+	for i := 0; i < env.Int("signerruns", 6); i++ {
+		signerLosesPowerRun(env, seed*90+uint64(i))
+	}
 	if env.Int("directed", 1) == 1 {
 		for _, sc := range []struct {
 			name string
@@ -432,6 +436,124 @@ func undelegationSlashRun(env *Env, seed uint64) {
 	}
 	env.DistinctKey(fmt.Sprintf("uslash-%d-%d-%d", seed, nSlash, effective))
 	env.Op("uslash.result", fmt.Sprintf("ok slashes=%d effective=%d", nSlash, effective))
+}
+
+// signerLosesPowerRun: an AVS with two opted-in operators; a task is created and signed by one of them
+// only (sometimes by both, sometimes also by an operator that never opted in); before the task's
+// statistics are taken (end of epoch start+2) the signer loses all its power — its whole stake is
+// undelegated, or it opts out of the AVS, or it is slashed by 100 % — while the other operator keeps the
+// AVS total positive (or, in a variant, loses everything too). x/avs AfterEpochEnd then computes
+// taskPowerTotal / operatorPowerTotal in BeginBlock behind a guard on both being non-zero. Everything
+// runs under recover(); monitor: no halt.
+func signerLosesPowerRun(env *Env, seed uint64) {
+	rng := NewRNG(seed ^ 0x51617)
+	op := fmt.Sprintf("signer.reset seed=%d", seed)
+	hist := []string{op}
+	env.Op(op, "ok")
+	env.Report.Histories++
+	cfg := DefaultCfg(seed)
+	cfg.NOperators = 3
+	cfg.Powers = []int64{101, 100, 150}
+	c := NewChainFresh(cfg)
+	step := func(o string) { hist = append(hist, o) }
+	blk := func(d time.Duration) bool {
+		r := c.EndAndBegin(d)
+		if r.Halt != "" {
+			env.Violate("C11.halt", "halt:"+sigOfHalt(r.Halt), "block processing panicked (a node would stop): "+r.Halt, hist)
+			env.Op("signer.result", "violation halt")
+			return false
+		}
+		return true
+	}
+	signer, other := c.Operators[0], c.Operators[1]
+	fx, err := setupAVSFixture(c, seed, 7, []Actor{signer, other})
+	step("signer.setup AVS(minute epoch) with operator[0] and operator[1] opted in, BLS keys")
+	if err != nil {
+		env.Op("signer.result", "setup-rejected "+tailStr(err.Error(), 100))
+		return
+	}
+	// operator[2] gets a BLS key too (it never opts into this AVS)
+	_ = c.CachedDo(func(ctx sdk.Context) error {
+		sk := detBLS(seed, 4242)
+		h := [32]byte{1}
+		return c.App.AVSManagerKeeper.RegisterBLSPublicKey(ctx, &avskeeper.BlsParams{Operator: c.Operators[2].Acc.String(), Name: "k", PubKey: sk.PublicKey().Marshal(),
+			PubkeyRegistrationSignature: sk.Sign(h[:]).Marshal(), PubkeyRegistrationMessageHash: h[:]})
+	})
+	for i := 0; i < 2; i++ {
+		if !blk(time.Minute + time.Second) {
+			return
+		}
+	}
+	signers := []Actor{signer}
+	who := "operator[0]"
+	switch rng.Intn(4) {
+	case 0:
+		signers = append(signers, other)
+		who += "+operator[1]"
+	case 1:
+		signers = append(signers, c.Operators[2]) // registered operator that never opted into this AVS
+		who += "+operator[2](not opted in)"
+	}
+	id, err := createTaskWithResults(c, fx, signers)
+	step(fmt.Sprintf("signer.task id=%d signed in phase one by %s", id, who))
+	if err != nil {
+		env.Op("signer.result", "task-rejected "+tailStr(err.Error(), 100))
+		env.Outcome("signer.task-rejected")
+		return
+	}
+	asset := common.HexToAddress(c.Cfg.Assets[0].Addr).Bytes()
+	undelegateAll := func(o Actor, pw int64, nonce uint64) error {
+		return c.CachedDo(func(ctx sdk.Context) error {
+			return c.App.DelegationKeeper.UndelegateFrom(ctx, &delegationtypes.DelegationOrUndelegationParams{
+				ClientChainID: c.LzID, Action: assetstypes.UndelegateFrom, AssetsAddress: asset, OperatorAddress: o.Acc, StakerAddress: o.Eth.Bytes(),
+				OpAmount: sdkmath.NewIntWithDecimal(pw, int(c.Cfg.Assets[0].Decimals)), LzNonce: nonce, TxHash: common.BytesToHash(detBytes(seed, "sl", int(nonce)))})
+		})
+	}
+	variant := rng.Intn(4)
+	var verr error
+	switch variant {
+	case 0:
+		verr = undelegateAll(signer, cfg.Powers[0], 500)
+		step("signer.lose operator[0]'s whole stake undelegated")
+	case 1:
+		verr = c.CachedDo(func(ctx sdk.Context) error {
+			return c.App.AVSManagerKeeper.OperatorOptAction(ctx, &avskeeper.OperatorOptParams{OperatorAddress: signer.Acc.String(), AvsAddress: fx.Avs, Action: avskeeper.DeRegisterAction})
+		})
+		step("signer.lose operator[0] opts out of the AVS")
+	case 2:
+		halt := ""
+		func() {
+			defer recoverTo(&halt, "BeginBlock(slashing->dogfood.SlashWithInfractionReason)")
+			c.App.StakingKeeper.SlashWithInfractionReason(c.Ctx, c.ConsKeys[0].ToConsAddr(), c.Header.Height-1, cfg.Powers[0], sdk.OneDec(), stakingtypes.Infraction_INFRACTION_DOUBLE_SIGN)
+		}()
+		step("signer.lose operator[0] slashed by 100 %")
+		if halt != "" {
+			env.Violate("C11.halt", "halt:"+sigOfHalt(halt), "slash panicked: "+halt, hist)
+			return
+		}
+	case 3:
+		verr = undelegateAll(signer, cfg.Powers[0], 500)
+		if verr == nil {
+			verr = undelegateAll(other, cfg.Powers[1], 501)
+		}
+		step("signer.lose both operators' whole stakes undelegated (AVS total zero as well)")
+	}
+	if verr != nil {
+		step("signer.lose rejected: " + tailStr(verr.Error(), 80))
+	}
+	for i := 0; i < 5; i++ {
+		if !blk(time.Minute + time.Second) {
+			return
+		}
+	}
+	note := ""
+	if ti, err := c.App.AVSManagerKeeper.GetTaskInfo(c.Ctx, fmt.Sprint(id), fx.Task); err == nil && ti != nil {
+		note = fmt.Sprintf("signed=%d nonsigners=%d threshold=%d total=%s", len(ti.SignedOperators), len(ti.NoSignedOperators), ti.ActualThreshold, ti.TaskTotalPower)
+	}
+	env.Eval("C11.halt")
+	env.DistinctKey(fmt.Sprintf("signer-%d-%d-%s", variant, len(signers), note))
+	env.Outcome(fmt.Sprintf("signer.variant=%d", variant))
+	env.Op("signer.result", fmt.Sprintf("ok variant=%d %s", variant, note))
 }
 
 // ---------------------------------------------------------------- directed scenarios
